@@ -5,7 +5,7 @@ import random
 from corr.common import Tally, hx, exn_class
 from corr import wsrun
 from corr.recvprops import KEYS
-from sim.sock import server_frame, Sock, HandshakeSock
+from sim.sock import server_frame, Sock, HandshakeSock, BlocksForever
 
 OPS = ["s1:6869", "rd1", "rv", "pi:70", "cl:1000:-", "cl:3001:627965", "cl:70000:-", "cl:-1:-", "sc:1001:-", "sh", "rf"]
 SCRIPTS = {
@@ -109,7 +109,7 @@ def judge(T, name, ops, line, s, decoded):
             T.fail("spec", pub, "transport closed exactly once", f"{s.closed} times", {"site": "state", "cls": "close-count"})
 
 
-def bounded_close(T, rng, n):
+def bounded_close(T, rng, n, only=None):
     """close() against a peer that keeps talking / stays silent: returns within timeout + one receive timeout
     of virtual time."""
     import websocket
@@ -147,10 +147,16 @@ def bounded_close(T, rng, n):
     _core.time = Clock
     try:
         for i in range(n):
-            timeout = rng.choice([1, 3, 0.5])
-            dt = rng.choice([0.1, 0.4, 1.0, 5.0])
+            if only is not None:
+                timeout, dt, chatter, sock_timeout = only["timeout"], only["dt"], only["chatter"], only.get("sock_timeout", 1)
+            else:
+                timeout = rng.choice([1, 3, 0.5])
+                dt = rng.choice([0.1, 0.4, 1.0, 5.0])
+                chatter = (i % 3 != 0)
+                sock_timeout = rng.choice([None, None, 1, 10, 0.2])
             s = TimedSock([])
-            s.chatter, s.dt, s.hs_done = (i % 3 != 0), dt, False
+            s.chatter, s.dt, s.hs_done = chatter, dt, False
+            s.timeout = sock_timeout
             s.t_start, s.runaway = Clock.now, False
             s.silence_after = True
             ws = websocket.WebSocket()
@@ -158,13 +164,20 @@ def bounded_close(T, rng, n):
             s.hs_done = True
             s.hs_mark = len(s.log)
             t0 = Clock.now
-            ws.close(timeout=timeout)
+            s.strict_blocking = True
+            try:
+                ws.close(timeout=timeout)
+            except BlocksForever:
+                T.fail("spec", {"kind": "bounded", "timeout": timeout, "dt": dt, "chatter": s.chatter, "sock_timeout": sock_timeout},
+                       f"close(timeout={timeout}) returns", "it reads from the transport with no timeout set while the server is silent: it never returns",
+                       {"site": "close", "cls": "close-blocks-forever"})
+                return
             el = Clock.now - t0
             T.case(("bounded", timeout, dt, s.chatter), bucket="close-bounded",
                    sample={"timeout": timeout, "frame_interval": dt, "chatter": s.chatter, "virtual_elapsed": round(el, 2)})
             bound = timeout + max(timeout, dt) + 1e-9
             if el > bound or ws.sock is not None:
-                T.fail("spec", {"kind": "bounded", "timeout": timeout, "dt": dt, "chatter": s.chatter},
+                T.fail("spec", {"kind": "bounded", "timeout": timeout, "dt": dt, "chatter": s.chatter, "sock_timeout": sock_timeout},
                        f"returns within {bound}s of virtual time with the transport released", f"{el}s sock={ws.sock}",
                        {"site": "close", "cls": "close-not-bounded"})
                 return
@@ -216,7 +229,9 @@ def search(ctx):
 
 def replay(ctx, sc):
     if sc.get("kind") == "bounded":
-        return {"note": "rerun ./check C08 quick"}
+        T = Tally()
+        bounded_close(T, random.Random(0), 1, only=sc)
+        return T.failures[0] if T.failures else None
     s_ = {"fire": 0, "skip": 0, "script": SCRIPTS[sc["script"]], "keys": KEYS, "ops": sc["ops"]}
     line, s = wsrun.run_impl(s_)
     allw = list(dict.fromkeys(e[1] for e in s.log[s.hs_mark:] if e[0] == "w"))
